@@ -17,6 +17,7 @@ use nom::{
     Parser,
 };
 
+use super::common::keyword_pair;
 use super::{
     common::{in_braces, in_parentheses, skip_ws, skip_ws_and_comments, value_reference},
     constraint::constraints,
@@ -66,7 +67,7 @@ pub fn object_identifier(input: Input<'_>) -> ParserResult<'_, ASN1Type> {
     map(
         into(preceded(
             // TODO: store info whether the object id is relative
-            skip_ws_and_comments(alt((tag(OBJECT_IDENTIFIER), tag(RELATIVE_OID)))),
+            skip_ws_and_comments(alt((keyword_pair(OBJECT_IDENTIFIER), tag(RELATIVE_OID)))),
             opt(skip_ws_and_comments(constraints)),
         )),
         ASN1Type::ObjectIdentifier,
